@@ -69,7 +69,39 @@ def gen_log(kind: str):
         if kind == "flex":
             q1, q2 = rng.choice(quorum_pairs(n))
             case["q1"], case["q2"] = q1, q2
-        if rng.random() < 0.15:
+        r_live = rng.random()
+        if r_live < 0.10:
+            # fault-free hand-over chain on FIFO links (constant delay): leader -> deposed -> (tick while deposed) ->
+            # possibly re-elected; each leadership starts only after everything before it is committed everywhere, so the
+            # new leader holds the full log (the regime in which the log protocols are not already broken by known findings).
+            # Replication is driven like examples/distributed/flexible_paxos_quorums.py (submit + _replicate_slot).
+            hi = rng.choice([0.001, 0.01])
+            a, b = rng.sample(names, 2)
+            c = rng.choice([x for x in names if x not in (a, b)])
+            chain = rng.choice([[a, b, a], [a, b, a], [a, b, c, a], [a, b, a, b], [a, b], [a, b, c]])
+            t = 0.1
+            starts, submits = [], []
+            for li, leader in enumerate(chain):
+                starts.append({"node": leader, "at": round(t, 6)})
+                t += 4 * hi + 0.05 * hb
+                k = rng.randrange(0, 3) if li < len(chain) - 1 else rng.randrange(1, 3)
+                for _ in range(k):
+                    t += rng.uniform(0.2 * hb, 1.2 * hb)
+                    submits.append({"to": leader, "at": round(t, 6), "id": f"c{len(submits)}", "kick": True})
+                t += 2.5 * hb + rng.uniform(0, hb)
+            case.update(
+                mode="live",
+                variant="handover",
+                script={"seed": rng.randrange(1 << 30), "family": "fixed", "base": [hi, hi], "loss": 0.0, "rules": []},
+                max_delay=hi,
+                starts=starts,
+                submits=submits,
+                pre_submits=0,
+                partitions=[],
+                end=round(t + (LIVE_HEARTBEATS + 3) * hb + 1.0, 6),
+            )
+            return case
+        if r_live < 0.25:
             # fault-free: one leader, commands submitted to the established leader
             hi = rng.choice([0.001, 0.01, 0.02])
             leader = rng.choice(names)
@@ -442,6 +474,11 @@ def run_log(kind: str):
             res.count("runs_with_decision")
         if case["mode"] == "live":
             res.count("liveness_runs")
+            if case.get("variant") == "handover":
+                res.count("handover_liveness_runs")
+                if len(mon.leaders_seen) < len(set(s["node"] for s in case["starts"])):
+                    res.inconclusive = "hand-over case: a scheduled leader never became leader"
+                    return res
             hi = case["max_delay"]
             missing = []
             for cid_, node_name, was_leader, t_sub in submit_info:
